@@ -554,7 +554,8 @@ pub fn directed() -> Vec<Doc> {
                     kind: IndexKind::Both,
                     entries: vec![
                         ent("chara/a/std.bin", 0, EntryKind::Standard { blocks: vec![b(600, Mode::Miniz(6)), b(300, Mode::Raw)], fill: 5 }),
-                        ent("chara/a/tex.tex", 0, EntryKind::Texture { header_len: 80, mips: vec![vec![b(512, Mode::Miniz(6))], vec![b(64, Mode::Stored)]], fill: 9, layout: 0 }),
+                        // (more mips than the 13 surfaces a texture header has room for)
+                        ent("chara/a/tex.tex", 0, EntryKind::Texture { header_len: 80, mips: (0..15).map(|i| vec![b(16 + i, if i % 2 == 0 { Mode::Raw } else { Mode::Miniz(6) })]).collect(), fill: 9, layout: 0 }),
                         ent("chara/a/big.bin", 0, EntryKind::Standard { blocks: vec![b(16000, Mode::Raw); 8], fill: 17 }),
                     ],
                 }],
@@ -653,6 +654,35 @@ pub fn directed() -> Vec<Doc> {
             while at < bytes.len() {
                 adoc(vec![Damage::Truncate { at }], &mut out);
                 at += step;
+            }
+            // two one-byte fields of one structure (enum tags, small indices) over every combination
+            // of small values: a tag decides how the index next to it is used
+            if aseed == aseeds[0] {
+                let prefix_of = |n: &str| n.rfind('.').map(|p| n[..p].to_string()).unwrap_or_default();
+                let mut budget = 12_000usize;
+                for (i, f1) in fields.iter().enumerate() {
+                    for f2 in fields.iter().skip(i + 1) {
+                        if f1.width != 1 || f2.width != 1 || !f1.name.contains('.') || prefix_of(&f1.name) != prefix_of(&f2.name) {
+                            continue;
+                        }
+                        const SMALL: [u64; 12] = [0, 1, 2, 3, 4, 8, 13, 14, 15, 16, 17, 255];
+                        for v1 in SMALL {
+                            for v2 in SMALL {
+                                if budget == 0 {
+                                    continue;
+                                }
+                                budget -= 1;
+                                adoc(
+                                    vec![
+                                        Damage::Field { name: f1.name.clone(), off: f1.off, width: 1, be: f1.be, value: v1 },
+                                        Damage::Field { name: f2.name.clone(), off: f2.off, width: 1, be: f2.be, value: v2 },
+                                    ],
+                                    &mut out,
+                                );
+                            }
+                        }
+                    }
+                }
             }
             for f in &fields {
                 let orig = damage::read_field(&bytes, f);
